@@ -58,7 +58,7 @@ func (w *Worktree) smudgeRacilyCleanEntries(idx *index.Index) {
 			continue
 		}
 		mode, err := filemode.NewFromOSFileMode(fi.Mode())
-		if err != nil || mode != e.Mode || uint32(fi.Size()) != e.Size || !fi.ModTime().Equal(e.ModifiedAt) {
+		if err != nil || uint32(fi.Size()) != e.Size || !fi.ModTime().Equal(e.ModifiedAt) {
 			// The stat data already tells the file and the entry apart.
 			continue
 		}
@@ -67,6 +67,20 @@ func (w *Worktree) smudgeRacilyCleanEntries(idx *index.Index) {
 			if cfg, err = w.r.Config(); err != nil {
 				return
 			}
+		}
+		// The mode tells them apart too, unless it differs in the executable
+		// bit only and core.fileMode=false makes the comparison ignore it.
+		entryMode := e.Mode
+		if !cfg.Core.FileMode {
+			if mode == filemode.Executable {
+				mode = filemode.Regular
+			}
+			if entryMode == filemode.Executable {
+				entryMode = filemode.Regular
+			}
+		}
+		if mode != entryMode {
+			continue
 		}
 		h, err := w.hashWorktreeFile(cfg, e.Name, fi)
 		if err != nil || h == e.Hash {
